@@ -14,13 +14,14 @@ use crate::authoring::*;
 fn fwd(op: &Op, _ctx: &dyn Context, operands: &mut dyn CoordinateSet) -> usize {
     let mut successes = 0_usize;
 
+    // The scale factor is the ratio of the two unit factors (rounded once)
     let xy_in_to_pivot = op.params.real("xy_in_to_pivot").unwrap();
-    let pivot_to_xy_out = op.params.real("pivot_to_xy_out").unwrap();
-    let xy = xy_in_to_pivot * pivot_to_xy_out;
+    let xy_out_to_pivot = op.params.real("xy_out_to_pivot").unwrap();
+    let xy = xy_in_to_pivot / xy_out_to_pivot;
 
     let z_in_to_pivot = op.params.real("z_in_to_pivot").unwrap();
-    let pivot_to_z_out = op.params.real("pivot_to_z_out").unwrap();
-    let z = z_in_to_pivot * pivot_to_z_out;
+    let z_out_to_pivot = op.params.real("z_out_to_pivot").unwrap();
+    let z = z_in_to_pivot / z_out_to_pivot;
 
     for i in 0..operands.len() {
         let mut coord = operands.get_coord(i);
@@ -39,13 +40,14 @@ fn fwd(op: &Op, _ctx: &dyn Context, operands: &mut dyn CoordinateSet) -> usize {
 fn inv(op: &Op, _ctx: &dyn Context, operands: &mut dyn CoordinateSet) -> usize {
     let mut successes = 0_usize;
 
+    // The scale factor is the ratio of the two unit factors (rounded once)
     let xy_in_to_pivot = op.params.real("xy_in_to_pivot").unwrap();
-    let pivot_to_xy_out = op.params.real("pivot_to_xy_out").unwrap();
-    let xy = xy_in_to_pivot * pivot_to_xy_out;
+    let xy_out_to_pivot = op.params.real("xy_out_to_pivot").unwrap();
+    let xy = xy_in_to_pivot / xy_out_to_pivot;
 
     let z_in_to_pivot = op.params.real("z_in_to_pivot").unwrap();
-    let pivot_to_z_out = op.params.real("pivot_to_z_out").unwrap();
-    let z = z_in_to_pivot * pivot_to_z_out;
+    let z_out_to_pivot = op.params.real("z_out_to_pivot").unwrap();
+    let z = z_in_to_pivot / z_out_to_pivot;
 
     for i in 0..operands.len() {
         let mut coord = operands.get_coord(i);
@@ -93,9 +95,9 @@ pub fn new(parameters: &RawParameters, _ctx: &dyn Context) -> Result<Op, Error> 
     };
 
     params.real.insert("xy_in_to_pivot", xy_in_to_pivot);
-    params.real.insert("pivot_to_xy_out", 1. / xy_out_to_pivot);
+    params.real.insert("xy_out_to_pivot", xy_out_to_pivot);
     params.real.insert("z_in_to_pivot", z_in_to_pivot);
-    params.real.insert("pivot_to_z_out", 1. / z_out_to_pivot);
+    params.real.insert("z_out_to_pivot", z_out_to_pivot);
 
     let descriptor = OpDescriptor::new(def, InnerOp(fwd), Some(InnerOp(inv)));
     let steps = Vec::<Op>::new();
